@@ -97,6 +97,22 @@ class ScriptedStream(MersenneTwister):
         return v
 
 
+class ValueEqStream(ScriptedStream):
+    """A stream type with value semantics (as a user RNG written as a dataclass
+    has): two streams are equal when seed, script and position agree."""
+
+    def _key(self):
+        return (self.seed(), self.calls, sorted(self.plan.items()))
+
+    def __eq__(self, other):
+        return isinstance(other, ValueEqStream) and self._key() == other._key()
+
+    def __ne__(self, other):
+        return not self.__eq__(other)
+
+    __hash__ = object.__hash__
+
+
 def _nonneg(x, p):
     return isinstance(x, float) and not math.isnan(x) and x >= 0.0
 
@@ -267,6 +283,9 @@ def run_cell(name, params, plan, seed=7, n_draws=4):
     dr.draw()
     used = sold.calls
     dr.stream = snew
+    if dr.stream is not snew:
+        return ("repointing-not-clean", "after Dist%s.stream = new, .stream does not "
+                "return the new stream" % name), info
     after = [dr.draw() for _ in range(3)]
     if sold.calls != used:
         return ("old-stream-consumed", "after Dist%s.stream = new the old stream was "
@@ -278,6 +297,27 @@ def run_cell(name, params, plan, seed=7, n_draws=4):
         return ("repointing-not-clean", "after re-pointing, Dist%s(%s) drew %s; a fresh "
                 "instance on an identical stream draws %s (stale cached state?)"
                 % (name, params, after, fresh)), info
+    # re-pointing to a different stream object that compares equal (same seed,
+    # same position): identity decides which stream is consumed, not equality
+    for warm in (0, 1):
+        sold, snew = ValueEqStream(seed, plan), ValueEqStream(seed, plan)
+        dr = build(name, params, sold)
+        for _ in range(warm):
+            dr.draw()
+        while snew.calls < sold.calls:
+            snew.next_float()
+        used = sold.calls
+        dr.stream = snew
+        if dr.stream is not snew:
+            return ("repointing-not-clean", "after Dist%s.stream = an equal but distinct "
+                    "stream, .stream does not return the new stream object" % name), info
+        for _ in range(2):
+            dr.draw()
+        if sold.calls != used:
+            return ("old-stream-consumed", "after Dist%s.stream = new (a distinct stream "
+                    "object that compares equal to the old one) the old stream went from "
+                    "%d to %d uniforms and the new one from %d to %d"
+                    % (name, used, sold.calls, used, snew.calls)), info
     return None, info
 
 
